@@ -93,6 +93,7 @@ var c12Sites = map[string][]string{
 	"ingest":          {"mappollard.ingest:between-proof-and-intermediates"},
 	"prune":           {"mappollard.Prune:after-uncache"},
 	"reread":          {"mappollard.Read:after-header", "mappollard.Read:in-node-loop"},
+	"badreread":       {"mappollard.Read:after-header", "mappollard.Read:in-node-loop"},
 	"restore":         {"mappollard.Read:after-header", "mappollard.Read:in-node-loop"},
 }
 
@@ -160,6 +161,9 @@ func c12Gen(c *core.Ctx) c12Scenario {
 		ops = append(ops, op)
 		if r.Intn(6) == 0 {
 			ops = append(ops, fOp{Kind: "reread"})
+		}
+		if r.Intn(7) == 0 {
+			ops = append(ops, fOp{Kind: "badreread", K: r.Intn(1 << 20)})
 		}
 	}
 	s.Ops = ops
@@ -321,6 +325,24 @@ func c12Build(s c12Scenario) *c12Plan {
 				delete(rem, h)
 			}
 			push(c12Step{Kind: "prune", Do: func(mp *u.MapPollard) error { return mp.Prune(cloneHashes(hashes)) }})
+		case "badreread":
+			// a Read that fails: the forest's own bytes, cut short.  Everything the cut stream
+			// holds is already in the forest, so no observation may change.
+			cut := op.K
+			push(c12Step{Kind: "badreread", Do: func(mp *u.MapPollard) error {
+				var buf bytes.Buffer
+				if _, err := mp.Write(&buf); err != nil {
+					return err
+				}
+				b := buf.Bytes()
+				if len(b) < 2 {
+					return nil
+				}
+				if _, err := mp.Read(bytes.NewReader(b[:1+cut%(len(b)-1)])); err == nil {
+					return fmt.Errorf("Read of a stream cut at %d of %d bytes returned nil", 1+cut%(len(b)-1), len(b))
+				}
+				return nil
+			}})
 		case "reread":
 			push(c12Step{Kind: "reread", Do: func(mp *u.MapPollard) error {
 				var buf bytes.Buffer
